@@ -52,5 +52,12 @@ HARNESSES = [
     HA('h_prolog_a64_kf_C07E', 'AArch64 light-call 2, region of known finding C07E', known='C07E', mem=8, timeout=3000, tiers=('thorough',)),
 ]
 EXPLANATION = 'bounded symbolic execution (CBMC) of the real FuncFrame::init/finalize and of the real x86/a64 emit_prolog/emit_epilog driving a model machine defined in the harness'
-OUTSIDE = ['BaseRAPass::update_stack_frame hand-over (needs a Compiler run)', 'local/call stack sizes above 64 KiB']
-ASSUMPTIONS = ['FuncDetail fields other than the calling convention record (used registers, stack argument size) are set directly to symbolic values of the shape FuncDetail::init produces']
+OUTSIDE = ['BaseRAPass::update_stack_frame hand-over (needs a Compiler run)', 'local/call stack sizes above 64 KiB',
+           'H2: local and call stack sizes that are not whole machine words; xmm16-xmm31 (AVX-512 light-call frames); the red zone and the Win64 home area are not written by the body',
+           'H2 AArch64 quick tier: dirty callee-saved registers outside x19-x21, x29, x30, d8-d10 (all masks in the thorough tier)']
+ASSUMPTIONS = ['FuncDetail fields other than the calling convention record (used registers, stack argument size) are set directly to symbolic values of the shape FuncDetail::init produces',
+               'H2: BaseEmitter::_emitI(...) is defined in the harness as the model emitter (interpreter of the prolog/epilog instructions); the emitter object is zeroed raw storage with environment and GP signature set',
+               'H2: machine values are 32 bit; stack memory is the set of stores made so far, disjointness is established by a sufficient condition (push hull, save hull, DA slot) - see h_prolog_x86.cpp',
+               'H2: after FuncFrame::init the harness asserts frame.arch() == ARCH and re-writes the field with the constant (no-op natively): with a non-constant index CBMC mis-read _arch_traits[arch] in this unit (counterexamples did not replay natively, i.e. the runner reported BROKEN, never a wrong PASS)',
+               'H2: preserved-register sets no built-in convention has (k, mm; xmm where the convention has none) are asserted empty and re-written as constant 0, except in h_prolog_x64_custom / _kf_C07B where they are symbolic',
+               'H2: per-loop unwind bounds (unwindset) follow from the number of callee-saved registers of the convention; a too small bound fails the unwinding assertion']
